@@ -31,6 +31,12 @@ def closure(units, names):
         visit(n)
     return order
 
+def item_key(e):
+    k = "%s :: %s" % (e.file, e.sel)
+    if 'frag_name' in e.opts:
+        k += "[%s]" % e.opts['frag_name']
+    return k
+
 def run_vx(unit_list, units, workdir):
     items = []
     index = []
@@ -60,7 +66,7 @@ def run_vx(unit_list, units, workdir):
                 for k in ('custom_iters', 'box_receivers', 'opaque_calls', 'eager_receivers'):
                     if k in e.opts:
                         it[k] = [x.strip() for x in e.opts[k].split(',')]
-                bl = (shapes().get("%s :: %s" % (e.file, e.sel)) or {}).get('loops')
+                bl = (shapes().get(item_key(e)) or {}).get('loops')
                 if bl and USE_BASELINE_LOOPS:
                     it['baseline_loops'] = bl
                 items.append(it)
@@ -84,13 +90,41 @@ def run_vx(unit_list, units, workdir):
         res[id(e)] = o
     return res
 
+def lcp(a, b):
+    n = 0
+    for x, y in zip(a, b):
+        if x != y:
+            break
+        n += 1
+    return n
+
+def fuzzy_pick(cands, prefix):
+    """cands: [(text, pos)]. The one statement whose text shares the longest beginning with the anchor, if that beginning is
+    at least 70% of the anchor (and 8 characters) and no other statement shares as much: the anchor statement itself, edited."""
+    scored = sorted(((lcp(t, prefix), pos) for t, pos in cands), reverse=True)
+    if not scored:
+        return None
+    best = scored[0]
+    if best[0] < max(8, int(0.7 * len(prefix))):
+        return None
+    if len(scored) > 1 and scored[1][0] == best[0]:
+        return None
+    return best[1]
+
 def find_stmt_marker(text, prefix, nth, what):
     # markers: /*@S:<normalized statement text>@*/
     pos = []
+    allm = []
     for m in re.finditer(r'/\*@[SM]:(.*?)@\*/', text):
+        allm.append((m.group(1), m.start()))
         if m.group(1).startswith(prefix):
             pos.append(m.start())
     if nth is None:
+        if len(pos) == 0:
+            p = fuzzy_pick(allm, prefix)
+            if p is not None:
+                REANCHORED.append("ADAPTED %s: the statement %r was edited; the hint anchored at it stays with it" % (what, prefix))
+                return p
         if len(pos) != 1:
             raise Undecided("lost anchor: %s: statement starting with %r matches %d places" % (what, prefix, len(pos)))
         return pos[0]
@@ -156,7 +190,8 @@ def fallback_anchor(text, what, prefix, nth):
 
 def weave(item, ext):
     text = ext['text']
-    what = "%s :: %s" % (item.file, item.sel)
+    what = item_key(item)
+    shape_key = what
     for kind, arg, body in item.parts:
         body = body.rstrip()
         if not body.strip():
@@ -177,14 +212,14 @@ def weave(item, ext):
             tag = {'loop': 'INV', 'pre': 'PRE', 'top': 'TOP', 'bot': 'BOT', 'post': 'POST'}[kind]
             mk = '/*@%s:%d@*/' % (tag, arg)
             if mk not in text:
-                if USE_BASELINE_LOOPS and (shapes().get(what) or {}).get('loops'):
+                if USE_BASELINE_LOOPS and (shapes().get(shape_key) or {}).get('loops'):
                     # the loop the invariant / hint was written for no longer exists (the function was restructured): the piece
                     # is moot; the function's own contract still has to hold for whatever replaced the loop
                     REANCHORED.append("%s: loop %d no longer exists, its woven %s was dropped" % (what, arg, kind))
                     continue
                 raise Undecided("lost anchor: %s: no loop %d (function shape changed)" % (what, arg))
             if USE_BASELINE_LOOPS and kind == 'loop':
-                bl = (shapes().get(what) or {}).get('loops') or []
+                bl = (shapes().get(shape_key) or {}).get('loops') or []
                 cl = ext.get('loop_sigs') or []
                 if arg < len(bl) and arg < len(cl) and bl[arg] != cl[arg]:
                     REANCHORED.append("%s: loop %d is not the loop its invariant was written for (now %r, was %r)" % (what, arg, cl[arg], bl[arg]))
@@ -199,7 +234,7 @@ def weave(item, ext):
                 # contract still has to hold
                 REANCHORED.append("%s: closure %d no longer exists, its woven contract was dropped" % (what, arg))
                 continue
-            base_cl = (shapes().get(what) or {}).get('closures') or []
+            base_cl = (shapes().get(shape_key) or {}).get('closures') or []
             cur_header = re.sub(r'\s+', ' ', text[i + len(b):j]).strip()
             if USE_BASELINE_LOOPS and arg < len(base_cl) and base_cl[arg] and base_cl[arg] != cur_header:
                 # the closure's parameters were renamed: the woven contract follows the new names (same number of simple
@@ -233,7 +268,13 @@ def weave(item, ext):
             text = text.replace(mk, ' ' + body.strip() + ' ', 1)
         elif kind == 'after':
             prefix, nth = arg
-            pos = [m.end() for m in re.finditer(r'/\*@E:(.*?)@\*/', text) if m.group(1).startswith(prefix)]
+            alle = [(m.group(1), m.end()) for m in re.finditer(r'/\*@E:(.*?)@\*/', text)]
+            pos = [e_ for t_, e_ in alle if t_.startswith(prefix)]
+            if nth is None and len(pos) == 0:
+                fp = fuzzy_pick(alle, prefix)
+                if fp is not None:
+                    REANCHORED.append("ADAPTED %s: the statement %r was edited; the hint anchored after it stays with it" % (what, prefix))
+                    pos = [fp]
             if (nth is None and len(pos) != 1) or (nth is not None and nth >= len(pos)):
                 REANCHORED.append("%s: hint anchored after %r has no place any more and was dropped" % (what, prefix))
                 continue
@@ -338,7 +379,8 @@ def assemble(unit_names, workdir, repo=None):
                     "line_start": o['line_start'], "line_end": o['line_end'],
                     "sha256": sha(o['original']), "rules": o['rules'], "kind": o['kind'],
                     "n_loops": o['n_loops'], "n_closures": o['n_closures'],
-                    "under_contract": any(k == 'sig' and b.strip() for k, a, b in e.parts)}
+                    "under_contract": any(k == 'sig' and b.strip() for k, a, b in e.parts),
+                    "frag": e.opts.get('frag_name')}
             functions.append(desc)
             emit(text, un, desc)
         if open_container is not None:
@@ -354,7 +396,7 @@ def assemble(unit_names, workdir, repo=None):
     for un in order:
         for e in units[un].entries:
             if isinstance(e, vspec.Item):
-                shape_now["%s :: %s" % (e.file, e.sel)] = {"stmts": markers_of(ext[id(e)]['text']),
+                shape_now[item_key(e)] = {"stmts": markers_of(ext[id(e)]['text']),
                                                           "rule_markers": rule_markers_of(ext[id(e)]['text']),
                                                           "closures": closure_headers_of(ext[id(e)]['text']),
                                                           "loops": ext[id(e)].get('loop_sigs', [])}
